@@ -10,7 +10,7 @@ KNOWN_FAIL = {'rsp_ql_dstream_semantics'}
 def sh(cmd, **kw):
     return subprocess.run(cmd, shell=True, cwd=wt, env=env, stdout=subprocess.PIPE, stderr=subprocess.STDOUT, text=True, **kw)
 res = {'k': k, 'at': time.strftime('%F %T')}
-sh('git checkout -- . && git clean -fdq -e target')
+sh('git checkout -- . && git clean -fdq -e target -e _out')
 readme = open(os.path.join(d, 'README.md')).read()
 m = re.search(r'place (?:it )?at\s+`([^`]+\.rs)`', readme) or re.search(r'`((?:shared|kolibrie|datalog)/tests/[^`]+\.rs)`', readme)
 demo_path = m.group(1)
@@ -39,7 +39,7 @@ r = sh('cargo test -p %s --test %s --offline 2>&1' % (crate, tname))
 open(os.path.join(d, 'confirm_demo_without.log'), 'w').write(r.stdout)
 res['demo_without_patch_passes'] = bool(re.search(r'test result: ok', r.stdout)) and r.returncode == 0
 os.remove(os.path.join(wt, demo_path))
-sh('git checkout -- . && git clean -fdq -e target')
+sh('git checkout -- . && git clean -fdq -e target -e _out')
 res['confirmed'] = all([res['applies'], res['suite_passes'], res['demo_with_patch_fails'], res['demo_without_patch_passes']])
 json.dump(res, open(os.path.join(d, 'confirm.json'), 'w'), indent=1)
 print(json.dumps(res))
